@@ -43,7 +43,7 @@ def pad(t):
     t.setdefault("events", [{"ev": "none", "arg": "", "input": "", "out": "", "changed": 0, "which": "", "pristine": 0, "digest": 0}])
     t.setdefault("fresh", {"I1": {k: 0 for k in OPTSETS}, "I2": {k: 0 for k in OPTSETS}})
     t.setdefault("digests", [0])
-    t.setdefault("rt", {"first_run": 0, "recreate": 0, "second_run": 0, "geqdsk_bytes_equal": 0, "yaml_safe_loads": 0, "arrays_identical": 0, "max_abs_diff_q": 0, "tolq": 10})
+    t.setdefault("rt", {"first_run": 0, "recreate": 0, "second_run": 0, "geqdsk_bytes_equal": 0, "yaml_safe_loads": 0, "yaml_complete": 0, "arrays_identical": 0, "max_abs_diff_q": 0, "tolq": 10})
     return t
 
 
@@ -144,7 +144,7 @@ def run(tier, seed):
             v.fail_machinery("round-trip driver (%s) gave no status" % tag)
         else:
             traces.append(pad({"id": len(traces) + 1, "kind": "roundtrip", "name": "roundtrip" if tag == "rt" else "roundtrip_after_regrid",
-                               "rt": dict({k: r1[k] for k in ("first_run", "recreate", "second_run", "geqdsk_bytes_equal", "yaml_safe_loads", "arrays_identical", "max_abs_diff_q")}, tolq=tolq)}))
+                               "rt": dict({k: r1[k] for k in ("first_run", "recreate", "second_run", "geqdsk_bytes_equal", "yaml_safe_loads", "yaml_complete", "arrays_identical", "max_abs_diff_q")}, tolq=tolq)}))
     send = [{k: t[k] for k in ("id", "kind", "events", "fresh", "digests", "rt")} for t in traces]
     failed, res = validate(send, d)
     v.add_tlc(res)
